@@ -495,6 +495,22 @@ def large_n_probes(tier):
         yield {"cls": "DiskRevolve", "n": n, "s": 1, "c8": [8, 8, 8000, 8000], "passes": 1}
         yield {"cls": "Multistage", "n": n, "ram": 1, "disk": 0, "traj": "maximum", "passes": 1}
         yield {"cls": "Mixed", "n": n, "s": 1, "storage": "DISK", "passes": 1}
+    yield from many_units_probes(tier)
+
+
+def many_units_probes(tier):
+    """Hundreds of checkpointing units (the pinned suite stops at 225): planners that recurse per
+    unit, per-unit tables, unit counts beyond 255. Run cold, like the large-n probes."""
+    yield {"cls": "Mixed", "n": 340, "s": 336, "storage": "RAM", "passes": 1}
+    yield {"cls": "Mixed", "n": 455, "s": 450, "storage": "DISK", "passes": 1}
+    yield {"cls": "Multistage", "n": 400, "ram": 200, "disk": 150, "traj": "maximum", "passes": 1}
+    yield {"cls": "Multistage", "n": 400, "ram": 150, "disk": 200, "traj": "revolve", "passes": 1}
+    yield {"cls": "Multistage", "n": 600, "ram": 0, "disk": 598, "traj": "maximum", "passes": 1}
+    yield {"cls": "TwoLevel", "period": 400, "b": 380, "storage": "RAM", "traj": "maximum", "n": 401, "passes": 2}
+    yield {"cls": "Revolve", "n": 260, "s": 257, "c8": [8, 8, 16, 16], "passes": 1}
+    yield {"cls": "DiskRevolve", "n": 260, "s": 257, "c8": [8, 8, 16, 16], "passes": 1}
+    yield {"cls": "HRevolve", "n": 260, "s": 200, "d": 57, "c8": [8, 8, 16, 16], "passes": 1}
+    yield {"cls": "PeriodicDiskRevolve", "n": 150, "s": 140, "c8": [8, 8, 0, 0], "passes": 1}
 
 
 # --------------------------------------------------------------------------
